@@ -18,6 +18,7 @@ const (
 	LonLat                       // six-decimal degrees
 	Moderate                     // finite, magnitude 1e-3..1e6, random mantissa
 	Wide                         // finite, magnitude 2^-200..2^200
+	IntEdge                      // finite, on or next to integer-type and digit-count boundaries
 	NumFloatClasses
 )
 
@@ -59,6 +60,38 @@ func Float(r *fw.Rand, cl FloatClass) float64 {
 			v = -v
 		}
 		return v
+	case IntEdge:
+		// values whose decimal or binary integer form sits at a boundary: 2^k for
+		// the widths of the integer types, 10^k where the digit count changes,
+		// integers of 15..22 digits; each also a few units / ulps to either side
+		var v float64
+		switch r.Intn(4) {
+		case 0:
+			k := []int{7, 8, 15, 16, 23, 24, 31, 32, 52, 53, 54, 62, 63, 64, 65, 127, 128}[r.Intn(17)]
+			v = math.Ldexp(1, k)
+		case 1:
+			v = math.Pow(10, float64(r.Range(14, 23)))
+		case 2:
+			// a random integer of 15..22 digits
+			d := r.Range(15, 22)
+			v = math.Floor((1 + 9*r.Float01()) * math.Pow(10, float64(d-1)))
+		default:
+			// upper part of a decade / of the int64 and uint64 ranges
+			v = []float64{9.3e18, 9.5e18, 9.99e18, 1.8e19, 1.9e19, 4.29e9, 4.3e9, 2.2e9, 9.1e15, 9.9e15}[r.Intn(10)] * (1 + r.Float01()/100)
+			v = math.Floor(v)
+		}
+		switch r.Intn(4) {
+		case 0:
+			v += float64(r.Range(-3, 3))
+		case 1:
+			v = NextAfterN(v, r.Range(-2, 2))
+		case 2:
+			v += 0.5
+		}
+		if r.Bool() {
+			v = -v
+		}
+		return v
 	case Wide:
 		m := 1 + r.Float01()
 		e := r.Range(-200, 199)
@@ -76,13 +109,13 @@ func Float(r *fw.Rand, cl FloatClass) float64 {
 
 // FiniteClass picks a class that only yields finite values.
 func FiniteClass(r *fw.Rand) FloatClass {
-	cls := []FloatClass{SmallInt, SmallInt, Grid, FiniteBits, LonLat, Moderate, Wide}
+	cls := []FloatClass{SmallInt, SmallInt, Grid, FiniteBits, LonLat, Moderate, Wide, IntEdge}
 	return cls[r.Intn(len(cls))]
 }
 
 // AnyClass picks any class, including non-finite specials.
 func AnyClass(r *fw.Rand) FloatClass {
-	cls := []FloatClass{SmallInt, Grid, FiniteBits, Specials, Specials, LonLat, Moderate, Wide}
+	cls := []FloatClass{SmallInt, Grid, FiniteBits, Specials, Specials, LonLat, Moderate, Wide, IntEdge}
 	return cls[r.Intn(len(cls))]
 }
 
